@@ -20,6 +20,26 @@ TRUSTED_BASE = [
 ]
 
 
+C19_FILES = ('sm_req.py', 'sm_res.py', 'sm_tx.py', 'c05_life.py', 'c10_limits.py', 'c11_flags.py', 'c12_path.py', 'c15_urlen.py', 'c07_decomp.py', 'c02_extract.py')
+
+
+def frame_scan():
+    """C19 supporting fact: no assigns clause in /verif/contracts names the shared configuration, a hook list or a static table."""
+    bad, n = [], 0
+    for path in sorted(glob.glob(os.path.join(VERIF, 'contracts', '*.h'))):
+        txt = open(path).read()
+        for m in re.finditer(r'__CPROVER_assigns\(', txt):
+            i, depth = m.end(), 1
+            while depth and i < len(txt):
+                depth += {'(': 1, ')': -1}.get(txt[i], 0)
+                i += 1
+            clause = txt[m.end():i - 1]
+            n += 1
+            if re.search(r'\bcfg\s*->|->\s*cfg\s*->|\*\s*cfg\b|object_whole\([^)]*cfg[^)]*\)|bestfit|decoder_cfgs|utf8d|hook_[a-z_]+->|htp_base64', clause):
+                bad.append('%s: %s' % (os.path.basename(path), ' '.join(clause.split())[:160]))
+    return n, bad
+
+
 def load_units():
     units = []
     for path in sorted(glob.glob(os.path.join(VERIF, 'units', '*.py'))):
@@ -29,6 +49,11 @@ def load_units():
         for u in getattr(mod, 'UNITS', []):
             u['file'] = os.path.basename(path)
             units.append(u)
+    # C19 (frames): every enforced contract of the parser / transaction layer proves, through dfcc's assigns-clause checking,
+    # that the function writes nothing outside its frame; none of these frames contains the shared configuration or a static table
+    for u in units:
+        if u['kind'] == 'contract' and u['enforce'] and u['file'] in C19_FILES and 'C19' not in u['props']:
+            u['props'].append('C19')
     names = [u['name'] for u in units]
     dup = set(n for n in names if names.count(n) > 1)
     if dup:
@@ -107,6 +132,14 @@ def main(argv):
         sel = [u for u in units if a.prop in u['props']]
         if a.tier == 'quick':
             sel = [u for u in sel if not u['thorough_only']]
+            if a.prop in ('C01', 'C19'):
+                # the union properties re-run units that other properties already run; the quick tier keeps the ones that finish
+                # in under a minute on the reference box (lib/timings.json, measured), the thorough tier runs all of them
+                try:
+                    tm = json.load(open(os.path.join(VERIF, 'lib', 'timings.json')))
+                except OSError:
+                    tm = {}
+                sel = [u for u in sel if tm.get(u['name'], 0) <= 60 or u['name'] in ('htp_connp_req_data', 'htp_connp_res_data')]
     prop = a.prop or (sel[0]['props'][0] if sel else '?')
     t0 = time.time()
     # known findings that are carved out of a unit by a macro are re-confirmed on every run: the same unit is run once more
@@ -206,10 +239,19 @@ def main(argv):
         print('VIOLATION property=%s replay=%s unit=%s obligation=%s%s' % (prop, path, r['unit'], news[0]['property'], suffix))
         # keep the VIOLATION line format exact for the harness as well:
         print('VIOLATION property=%s replay=%s%s' % (prop, path, suffix))
+    frame_note = None
+    if a.prop == 'C19':
+        n_assigns, bad = frame_scan()
+        frame_note = dict(assigns_clauses_scanned=n_assigns, clauses_naming_shared_configuration=bad)
+        print('C19 frame scan: %d assigns clauses in contracts/*.h, %d name the shared configuration / a static table' % (n_assigns, len(bad)))
+        for b in bad:
+            print('VIOLATION property=C19 replay=%s frame-scan: %s no-failing-input-found' % (os.path.join(VERIF, 'contracts'), b))
+        if bad:
+            violations.append((dict(unit='frame_scan'), [dict(property='frame_scan')], '', None))
     for r in undecided:
         print('UNDECIDED property=%s unit=%s: %s' % (prop, r['unit'], r['reason']))
     if not a.no_evidence and a.prop:
-        write_evidence(prop, a.tier, seed, sel, results, violations, known_hit, time.time() - t0)
+        write_evidence(prop, a.tier, seed, sel, results, violations, known_hit, time.time() - t0, frame_note)
     proved = [r for r in results if r['kind'] != 'bounded']
     print('%s %s: %d units (%d proof, %d bounded), %d/%d obligations discharged, %d violations, %d known, %d undecided, %.1fs' % (
         prop, a.tier, len(results), len(proved), len(results) - len(proved),
@@ -222,7 +264,7 @@ def main(argv):
     return 0
 
 
-def write_evidence(prop, tier, seed, units, results, violations, known_hit, wall):
+def write_evidence(prop, tier, seed, units, results, violations, known_hit, wall, extra=None):
     proved = [r for r in results if r['kind'] != 'bounded']
     bounded = [r for r in results if r['kind'] == 'bounded']
     enforced = sorted(set(r['enforce'] for r in results if r['enforce']))
@@ -272,6 +314,8 @@ def write_evidence(prop, tier, seed, units, results, violations, known_hit, wall
         wall_s=round(wall, 1),
         violations=len(violations),
     )
+    if extra:
+        ev['coverage']['frame_scan'] = extra
     os.makedirs(os.path.join(VERIF, 'evidence'), exist_ok=True)
     with open(os.path.join(VERIF, 'evidence', prop + '.json'), 'w') as f:
         json.dump(ev, f, indent=1)
